@@ -51,6 +51,7 @@ class GeminiClient:
         tofu_db_path: Path | None = None,
         client_cert: Path | str | None = None,
         client_key: Path | str | None = None,
+        decode_body: bool = True,
     ):
         """Initialize the Gemini client.
 
@@ -69,8 +70,11 @@ class GeminiClient:
                 authentication with servers that require client certificates.
             client_key: Path to client private key file (PEM format). Required
                 if client_cert is provided.
+            decode_body: Decode text bodies with their declared charset. Default
+                is True. With False every body is returned as the bytes received.
         """
         self.timeout = timeout
+        self.decode_body = decode_body
         self.max_redirects = max_redirects
         self.verify_ssl = verify_ssl
         self.trust_on_first_use = trust_on_first_use
@@ -183,7 +187,10 @@ class GeminiClient:
         # Per spec: "client SHOULD add trailing '/' for empty paths"
         # With TOFU nothing is sent until the peer's certificate has been verified
         protocol = GeminiClientProtocol(
-            parsed.normalized, response_future, send_on_connect=self.tofu_db is None
+            parsed.normalized,
+            response_future,
+            send_on_connect=self.tofu_db is None,
+            decode_body=self.decode_body,
         )
 
         # Create connection using Protocol/Transport pattern
